@@ -13,7 +13,7 @@ L5 (parse side): `fromCst` for the container fragment — a transliteration, bug
   * `expressions/function/call.py` `FunctionCall.from_cst` (with `collect_comments_between_with_gap`,
                                  `_collect_comment_trivia` of `trivia.py`)
   * `expressions/with_statement.py` `WithStatement.from_cst`, `expressions/assertion.py` `Assertion.from_cst`
-  * `expressions/select.py`      `Select.from_cst` (without `or` default)
+  * `expressions/select.py`      `Select.from_cst`
                                  (with `split_inline_comments`, `append_gap_trivia`)
 
 `Expr` has one constructor per Python class with the fields the fragment uses (`Binding` is an
@@ -62,6 +62,9 @@ inductive Expr where
   /-- `Select(expression, attribute, default=None, attr_gap, attr_before)`; `attribute` is kept as its
       `.`-separated segments (`attrText attrs` is the Python string) -/
   | sel (expr : Expr) (attrs : List Text) (attrGap : Text) (attrBefore : List Trivia) (before after : List Trivia)
+  /-- `Select(expression, attribute, default, attr_gap, attr_before, default_gap, default_before)` -/
+  | selOr (expr : Expr) (attrs : List Text) (attrGap : Text) (attrBefore : List Trivia) (dflt : Expr)
+      (dfltGap : Text) (dfltBefore : List Trivia) (before after : List Trivia)
 
 /-- `NixSourceCode(expressions, trailing)` -/
 structure Src where
@@ -78,6 +81,7 @@ def Expr.before : Expr → List Trivia
   | .wth _ _ _ _ _ b _ => b
   | .asrt _ _ _ _ b _ => b
   | .sel _ _ _ _ b _ => b
+  | .selOr _ _ _ _ _ _ _ b _ => b
 
 def Expr.after : Expr → List Trivia
   | .leaf _ _ _ a => a
@@ -89,6 +93,7 @@ def Expr.after : Expr → List Trivia
   | .wth _ _ _ _ _ _ a => a
   | .asrt _ _ _ _ _ a => a
   | .sel _ _ _ _ _ a => a
+  | .selOr _ _ _ _ _ _ _ _ a => a
 
 def Expr.setBefore : Expr → List Trivia → Expr
   | .leaf k t _ a, b => .leaf k t b a
@@ -100,6 +105,7 @@ def Expr.setBefore : Expr → List Trivia → Expr
   | .wth e bd c g s _ a, b => .wth e bd c g s b a
   | .asrt c bd x y _ a, b => .asrt c bd x y b a
   | .sel e ats g ab _ a, b => .sel e ats g ab b a
+  | .selOr e ats g ab d dg db _ a, b => .selOr e ats g ab d dg db b a
 
 def Expr.setAfter : Expr → List Trivia → Expr
   | .leaf k t b _, a => .leaf k t b a
@@ -111,6 +117,7 @@ def Expr.setAfter : Expr → List Trivia → Expr
   | .wth e bd c g s b _, a => .wth e bd c g s b a
   | .asrt c bd x y b _, a => .asrt c bd x y b a
   | .sel e ats g ab b _, a => .sel e ats g ab b a
+  | .selOr e ats g ab d dg db b _, a => .selOr e ats g ab d dg db b a
 
 /-- `expr.after.extend(ts)` -/
 def Expr.addAfter (e : Expr) (ts : List Trivia) : Expr := e.setAfter (e.after ++ ts)
@@ -386,6 +393,15 @@ def Cst.parse : Cst → Except Err Expr
     match e.parse with
     | .error err => .error err
     | .ok ee => .ok (.sel ee attrs g1 (collectTrivia c1 g1) [] [])
+  | .selOr e c1 g1 _ attrs c2 g2 _ d =>
+    -- default_before, default_gap = collect_comments_between_with_gap(node, comments, attrpath_node, or_node,
+    -- allow_inline=True)
+    match e.parse with
+    | .error err => .error err
+    | .ok ee =>
+      match d.parse with
+      | .error err => .error err
+      | .ok de => .ok (.selOr ee attrs g1 (collectTrivia c1 g1) de g2 (collectTrivia c2 g2) [] [])
 /-- the loop of `parse_delimited_sequence` -/
 def Items.parseSeq : Items → Mode → SeqSt → Except Err SeqSt
   | .nil, _, st => .ok st
